@@ -192,6 +192,18 @@ pub fn run(args: &[Val]) -> Val {
                     let mm = VhostUserMMap { shmid: id, len: 4096, ..Default::default() };
                     let file = vmm_sys_util::eventfd::EventFd::new(0).unwrap();
                     let mut r = "ok".to_string();
+                    if op == "toggle_ack" {
+                        // the thread that serves SET_PROTOCOL_FEATURES switches the acknowledgements off and on again while
+                        // other clones have calls in flight: every call must still see one consistent setting
+                        for _ in 0..reps {
+                            p.set_reply_ack_flag(false);
+                            std::thread::yield_now();
+                            p.set_reply_ack_flag(true);
+                            std::thread::yield_now();
+                        }
+                        let _ = tx.send((i, r));
+                        return;
+                    }
                     for _ in 0..reps {
                         let res = match op.as_str() {
                             "shared_object_remove" => p.shared_object_remove(&msg),
